@@ -15,7 +15,7 @@ def operReply : Nat := 2
 def requestTargetMac : Nat := 69
 def broadcastMac : Nat := 281474976710655
 /-- does an `Err` entry of the ARP table answer `resolve` and wake waiters of `get_mac`? -/
-def cachedFailureIsAnswer : Bool := true
+def cachedFailureIsAnswer : Bool := false
 /-- `clamp` of subnetting.rs (u32 arguments) -/
 def clamp (num min max : Nat) : Nat := if num < min then min else if num > max then max else num
 /-- `Ipv4Mask::from_bitcount` (no u32 overflow possible: `size < 32` in the last branch) -/
